@@ -3,7 +3,7 @@
    code of reshape.go, flatten.go, squeeze.go, unsqueeze.go, shape.go as repaired), S = the
    ONNX text as written in Check/CheckC07.v (reshape_spec ... shape_spec). *)
 From Coq Require Import List ZArith Bool String.
-From V Require Import DType Tensor Case OpCheck ShapeOps CheckC07 ShapeOpsProofs C07Payload.
+From V Require Import DType Tensor Case OpCheck ShapeOps CheckC07 ShapeOpsProofs C07Payload C07Numel.
 Import ListNotations.
 Open Scope Z_scope.
 
@@ -40,6 +40,21 @@ Theorem C07_unsqueeze_keeps_payload t axes v :
   unsqueeze_spec t axes = SMust [Some v] -> pl v = pl t /\ dt v = dt t.
 Proof. exact (unsqueeze_keeps t axes v). Qed.
 Print Assumptions C07_unsqueeze_keeps_payload.
+
+(* ... and the shape S demands holds exactly as many elements as the input has, so the input's
+   payload under it is a well-formed tensor: Flatten at every accepted axis, Squeeze without
+   axes, Reshape when no extent is inferred (C07_reshape_count_partial: the inferred -1 case is
+   covered by C07_model_refines_spec through the model only, not stated on S alone) *)
+Theorem C07_flatten_keeps_count axis t v :
+  flatten_spec axis t = SMust [Some v] -> total v = total t.
+Proof. exact (flatten_keeps_count axis t v). Qed.
+Theorem C07_squeeze_all_keeps_count t v :
+  squeeze_spec t None = SMust [Some v] -> total v = total t.
+Proof. exact (squeeze_all_keeps_count t v). Qed.
+Theorem C07_reshape_count_partial t shp v :
+  ~ In (-1) (pl shp) -> reshape_spec t shp = SMust [Some v] -> total v = total t.
+Proof. exact (reshape_plain_keeps_count t shp v). Qed.
+Print Assumptions C07_reshape_count_partial.
 
 (* the known-finding class is real: the model (and the code) panic on it *)
 Example C07_shape_rank0_refuted :
